@@ -149,6 +149,17 @@ check("C14", "watchers",
       "Trusted: TLC; hook H2 (applies the predicates then calls the handler, as controller-runtime's source does); the Go race detector. "
       "Concurrency coverage is statistical (scheduler-dependent), the sequential part is exhaustive within its bounds.", "DESIGN.md 6 C14")
 
+check("C17", "acme",
+      "TLA+ spec Acme.tla (part A: decision rows Needed/Obtained; part B: ingress histories with sync kind and leadership, Wanted(cluster) vs queue "
+      "Add/Remove); TLC enumerates the 2000 rows and proposes the histories; the real signer over the real cache facade (stub acme client, hook H4) "
+      "and the real pipeline with a recording queue behind the real queue facade and the real leader elector over an in-memory lease run them; "
+      "TLC judges every row and step (TraceAcme.tla)",
+      "Exhaustive enumerated-input contract validation of the signer decision (incl. 30 s either side of the expiry boundary, wildcard and partial "
+      "coverage, partial client results) and history validation of the work queue: enqueue what appears or changes, remove what disappears, no "
+      "re-enqueue of unchanged secrets on incremental syncs, nothing from a non-leader.",
+      "Trusted: TLC; the stub acme client and the recording queue; controller-runtime fake client. The ACME protocol (pkg/acme/client.go) is not run.",
+      "DESIGN.md 6 C17")
+
 NOT_BUILT = "check not built yet (planned, DESIGN.md section 6); no claim made until the check exists"
 
 
